@@ -271,7 +271,12 @@ impl Typed for C40 {
                             ctx.violate("negotiated-protocol-not-offered-or-not-registered", format!("dial {i} offered {:?}, registered {:?}, negotiated {}", d.alpns, case.registered, String::from_utf8_lossy(negotiated)));
                             return;
                         }
-                        if mine.len() != 1 {
+                        // The dialer can consider the handshake complete (and later give up) while its last
+                        // handshake flight is still being lost: under packet loss a connection that is
+                        // established on the dialer's side may never have existed on the router's side.
+                        if mine.is_empty() && case.net.drop_pm > 0 {
+                            ctx.count("probe.dialer_side_only_connection_under_loss");
+                        } else if mine.len() != 1 {
                             ctx.violate(
                                 if mine.is_empty() { "established-connection-reached-no-handler" } else { "connection-handled-more-than-once" },
                                 format!("dial {i} established with {}: handler invocations {mine:?}", String::from_utf8_lossy(negotiated)),
